@@ -521,7 +521,8 @@ impl World {
                 let key = self.keys[&k].0.clone();
                 let before = self.listed();
                 let was_inflight_any = self.any_inflight();
-                let fresh = !self.puts.contains_key(&k);
+                // not listed and nothing in flight for k: the put cannot be answered from the cache
+                let fresh = !self.inflight(k);
                 self.puts.entry(k).or_default().push(v);
                 let rec = Record { key: key.clone(), value: bytes, publisher: None, expires: None };
                 let rt_lane = new_lane_rt();
@@ -556,15 +557,22 @@ impl World {
                     }
                     self.last_event.insert(k, Ev::Put(v, rt.to_string()));
                 } else {
-                    // refused (stays readable from the cache) or answered from the cache without storing
-                    if out == "max" || self.last_event.get(&k).map(|e| !matches!(e, Ev::Put(x, _) if *x == v)).unwrap_or(true) {
+                    if out == "dedup" && !matches!(self.last_event.get(&k), Some(Ev::Put(x, _)) if *x == v) {
+                        // `Ok` without scheduling a write is only right for the record accepted last for this key
+                        let le = self.last_event.get(&k).cloned();
+                        self.fail("ok-means-stored", format!("put {k} {v} returned Ok without scheduling a write, but the last store-changing event on key {k} is {le:?}"));
                         self.taint.insert(k);
                     }
                     if out == "max" {
                         self.clean = false;
+                        // a refused record leaves no trace: not readable unless the key was held before
+                        let got = self.get_str(k);
+                        if !before.contains_key(&k) && got != "none" {
+                            self.fail("refused-leaves-no-trace", format!("put {k} {v} was refused (MaxRecords) and key {k} is not held, but get returns {got}"));
+                        }
                     }
                 }
-                // C10: the accept/refuse decision for a key seen for the first time
+                // C10: the accept/refuse decision for a key that is neither held nor in flight
                 if fresh && before.len() >= self.max && !before.is_empty() && !before.contains_key(&k) {
                     let far = self.own_farthest(&before).expect("nonempty");
                     let closer = self.keys[&k].1 <= self.keys[&far].1;
@@ -575,8 +583,8 @@ impl World {
                     } else if out != "max" || !evicted.is_empty() || before != after {
                         self.fail("at-capacity", format!("put of new key {k} at capacity, farther than the farthest held key {far}: result {out}, evicted {evicted:?}"));
                     }
-                } else if fresh && before.len() < self.max && (out != "ok" || !evicted.is_empty()) {
-                    self.fail("below-capacity", format!("put of new key {k} with {} < {} records held: result {out}, evicted {evicted:?}", before.len(), self.max));
+                } else if fresh && !before.contains_key(&k) && before.len() < self.max && (out != "ok" || !evicted.is_empty()) {
+                    self.fail("below-capacity", format!("put of unheld key {k} with {} < {} records held: result {out}, evicted {evicted:?}", before.len(), self.max));
                 }
                 if !self.push_lane(rt_lane, kinds) {
                     return format!("{out} lane-mismatch");
